@@ -1179,7 +1179,12 @@ def reset_process_state(tr, hard=False):
     """bring pyhf back to numpy/64b/scipy with a flushed registry (two rounds)"""
     import pyhf
     # models that went through a jax fit stay pinned by jax's jit caches (static argument `pdf`): they survive into the
-    # next history, where they form the prefix of the model history (Runner.prefix_from_live_roots)
+    # next history, where they form the prefix of the model history (Runner.prefix_from_live_roots).  Beyond a few such
+    # survivors the caches are dropped (between histories only), otherwise every later switch re-computes all of them.
+    if len(tr.roots) > 40 or hard:
+        import sys
+        if 'jax' in sys.modules:
+            sys.modules['jax'].clear_caches()
     gc.collect()
     try:
         if hard:
@@ -1434,7 +1439,7 @@ def run(ctx):
     order = list(settings)
     rng.shuffle(order)
     hists.append(('tour', tour_history(rng, order if not ctx.quick else order[:5], all_kinds(rng))))
-    nh = ctx.n(32, 300)
+    nh = int(os.environ.get('VERIF_C11_HISTORIES', 0)) or ctx.n(32, 150)
     maxlen = ctx.n(12, 40)
     for k in range(nh):
         hists.append(('random%d' % k, gen_history(rng, rng.randrange(4, maxlen + 1), backends, fit_prob=0.3 if ctx.quick else 0.8)))
